@@ -325,3 +325,31 @@ def write_evidence(prop, doc):
 
 def sha(s):
     return hashlib.sha1(s.encode()).hexdigest()
+
+
+# ---------------------------------------------------------------- source fingerprint
+def source_fingerprint(repo=None):
+    """SHA-1 over the crate's non-test sources and manifest: when it differs from the recorded
+    fingerprint of the tree the model was validated against, the checks search harder."""
+    repo = repo or REPO
+    h = hashlib.sha1()
+    files = []
+    for d, _, fs in os.walk(os.path.join(repo, 'src')):
+        for f in fs:
+            if f.endswith('.rs'):
+                files.append(os.path.join(d, f))
+    files.append(os.path.join(repo, 'Cargo.toml'))
+    for f in sorted(files):
+        try:
+            h.update(os.path.relpath(f, repo).encode() + b'\0' + open(f, 'rb').read() + b'\0')
+        except OSError:
+            pass
+    return h.hexdigest()
+
+
+def source_changed():
+    try:
+        base = json.load(open(os.path.join(VERIF, 'src_baseline.json')))['sha1']
+    except Exception:
+        return False
+    return source_fingerprint() != base
